@@ -355,10 +355,18 @@ def route_removal(state: VRPState, rng: Random, n_routes: int = 1) -> VRPState:
     n = min(n_routes, len(non_empty))
     to_remove_vehicles = rng.sample(non_empty, n)
 
+    removed: set[int] = set()
     for v in to_remove_vehicles:
-        state.unassigned.update(state.routes[v])
+        removed.update(state.routes[v])
         state.routes[v] = []
         state.arrival_times[v] = []
+    state.unassigned.update(removed)
+
+    # A multi-vehicle customer of a removed route must leave its other routes as well
+    for v in range(len(state.routes)):
+        if any(c in removed for c in state.routes[v]):
+            state.routes[v] = [c for c in state.routes[v] if c not in removed]
+            state.arrival_times[v] = state.compute_arrival_times(v)
 
     return state
 
